@@ -111,7 +111,7 @@ def classifiedRaiseSites : List Site := [
   u "rattr/results/_find_call_target.py" "__resolve_target_and_ir" "ModuleNotFoundError" "subclass of ImportError: caught by resolve_function / resolve_class_init",
   u "rattr/results/_find_call_target.py" "__resolve_target_and_ir" "ImportError" "caught by resolve_function / resolve_class_init",
   u "rattr/results/_find_call_target.py" "__resolve_target_and_ir" "ImportError" "caught by resolve_function / resolve_class_init",
-  u "rattr/results/_simplify_utils.py" "unbind_name" "ValueError" "names produced by the analysers start with their (starred) basename; not reproduced by any probe",
+  r "rattr/results/_simplify_utils.py" "unbind_name" "ValueError" "K22",
   u "rattr/versioning/_util.py" "_parse_version_string" "ValueError" "only on rattr's own version-guard literals",
   u "rattr/versioning/_util.py" "_parse_version_string" "ValueError" "only on rattr's own version-guard literals",
   u "rattr/versioning/_util.py" "_parse_version_string" "ValueError" "only on rattr's own version-guard literals"
@@ -130,6 +130,13 @@ def libraryRows : List (String × String) := [
   ("K20", "UnicodeDecodeError / SyntaxError(U+FEFF) in read + ast.parse: source files are read as UTF-8 text ignoring coding cookie and BOM"),
   ("K21", "RecursionError in resolve_import on a re-export cycle a <-> b")
 ]
+
+/-- K22 (found while proving the names invariant of §3): `unbind_name` raises `ValueError("never")`
+when a Name whose basename is `getattr` / `hasattr` / `setattr` / `delattr` (`names_of` keeps the
+callee's basename for `getattr(q, 'x').m` but spells it `q.x.m`) is unbound through a parameter of
+that name: `def f(getattr, q): return getattr(q, 'x').m` + `def g(b, c): return f(b, c)` (results
+stage), `sorted(xs, key=lambda getattr: getattr(q, 'x').m)` (function analyser). -/
+def k22Note : String := "unbind_name: Name('q.x.m', basename='getattr') does not start with its basename"
 
 /-- Rows of the first pinned tree that upstream `fix:` commits removed (kept for the record; the corpus of
 py/props/c07.py still runs their witnesses, so a regression is reported as a violation). -/
@@ -152,8 +159,10 @@ necessary by quantifying the theorem over every root context and plugin table:
     `from builtins import getattr as g` cannot be excluded syntactically), so the getattr-family
     condition `xattrOldOk` is demanded of every call;
   * `sorted(..., key=<lambda>)` is excluded altogether (`noKeyLambda`): besides K3 (≠ 1 positional
-    parameter) that path ends in `unbind_name`'s `ValueError("never")`, whose unreachability is an
-    invariant of the produced names that this development does not prove.
+    parameter) that path ends in `unbind_name`'s `ValueError("never")`, which IS reachable (K22: the
+    name `getattr(q, 'x').m` has basename `getattr` but full name `q.x.m`; a parameter called
+    `getattr` makes `unbind_name` look for the prefix `getattr`). §3 accepts the lambdas for which
+    the prefix invariant is proved.
 The harness reports how often the predicate is false on a function that does not crash. -/
 
 /-- K4 / K5 (new namer): `names_of(node, safe=safe)` does not raise. -/
@@ -279,7 +288,178 @@ def okRetList : List Node → Bool
   | e :: r => okRet e && okNode e && okRetList r
 end
 
+/-- The shape predicate of build round 1: sufficient under EVERY root context (also contexts no run of
+rattr can produce, e.g. a builtin stored under another name): kept with its theorem
+`C07_fn_no_crash_anyctx_partial`. -/
+def NoCrashShapeFnAnyCtx (body : List Node) : Bool := okList body
+
+/-! ## 3. The wider predicate (contexts as `compile_root_context` builds them)
+
+`NoCrashShapeFn` drops four over-approximations of §2; what remains excluded is, per clause, one of the
+crash rows K3 / K4 / K5 / K22 / `defaultdict((a+b).c)` (each with a `C07_cex_*` theorem):
+
+  * **custom analysers of the getattr family** (`xattrOldOk`): demanded only of a call whose callee is
+    SPELLED `getattr` / `hasattr` / `setattr` / `delattr`. In a context where a builtin is stored under
+    its own name and no import has such a qualified name (`SaneCtx`, decidable; true of every context
+    the root-context builder produces unless the module says `import getattr`), no other spelling is
+    dispatched to those analysers.
+  * **`key=<lambda>`** is accepted when the lambda has exactly one positional parameter, that
+    parameter is an identifier other than the four names above (`cleanId`), and the body satisfies the
+    predicate in "key mode" (`k = true`): expression nodes only, a walrus target is a plain name, no
+    call spelled like the getattr family, at most one `*` on a name chain. Under these the names the
+    body produces start with their basename, so `unbind_name` finds its prefix (K22 otherwise).
+  * **strict naming of a returned / assigned call** (`visit_ReturnValue`, `visit_ClassAssign`) is
+    demanded only when the callee can resolve at all: a callee spelled through an unnameable root
+    (`(a + b).m()`, `'s'.join()`) has `get_call_target` answer `None`, so it is never a class.
+  * a statement list is checked up to its first statement that always ends in `error.fatal`
+    (`import` / `global` / `nonlocal` directly or inside a compound statement — `if`, `try`, `while`,
+    `match`, `for`, `with`, a nested `def`): the statements after it are never visited. -/
+
+/-- an entry of a symbol table as the builders create them: a builtin sits under its own name, and
+no import is qualified as one of the getattr-family names. -/
+def saneEntry (p : Str × Sym) : Bool :=
+  (p.2.kind != .builtin || p.2.name == p.1) && (p.2.kind != .import_ || !xattrBuiltins.contains p.2.qual)
+
+def SaneCtx (c : Context) : Bool := c.all fun sc => sc.all saneEntry
+
+/-- the callee spelling `get_call_target` looks up is one of the getattr-family names. -/
+def xattrSpelled (tn : Str) : Bool :=
+  xattrBuiltins.contains (Strs.removeChar (Strs.withoutCallBrackets tn) '*')
+
+/-- `get_call_target(full)` answers `None` at its first test: the name starts with `@`. -/
+def literalCallee (full : Str) : Bool :=
+  Strs.startsWith (Strs.removeChar (Strs.withoutCallBrackets full) '*') ['@']
+
+def newLiteral (n : Node) : Bool :=
+  match namesOf true n with
+  | .ok _ f => literalCallee f
+  | _ => false
+
+def oldLiteral (n : Node) : Bool :=
+  match oldNames true n with
+  | .ok _ f => literalCallee f
+  | _ => false
+
+/-- an identifier that is not a getattr-family name (a lambda parameter `unbind_name` can handle). -/
+def cleanId (s : Str) : Bool := isIdentifier s && !xattrBuiltins.contains s
+
+/-- number of `*` a name chain puts in front of its basename. -/
+def chainStars : Node → Nat
+  | .attr v _ _ => chainStars v
+  | .sub v _ _ => chainStars v
+  | .starred v _ => chainStars v + 1
+  | .call f _ _ _ => chainStars f
+  | _ => 0
+
+/-- key mode: at most one leading `*`. -/
+def starsOk (k : Bool) (n : Node) : Bool := !k || decide (chainStars n ≤ 1)
+
+def isNameNode : Node → Bool
+  | .name .. => true
+  | _ => false
+
+/-- the right-hand side can make `visit_AnyAssign` name the first target strictly. -/
+def strictRhs (value : Node) : Bool :=
+  lambdaInRhs value || namedtupleInRhs value || (isCall value && !oldLiteral value)
+
+def firstTargetOk' (k : Bool) (targets : List Node) (value : Node) : Bool :=
+  match targets with
+  | [] => false
+  | t :: _ => (!oneToOne targets value || !strictRhs value || nameOk false t) && starsOk k t
+
+def assignOk' (k : Bool) (targets : List Node) (value : Node) : Bool :=
+  firstTargetOk' k targets value && classProbeOk value && targets.all unravelOk &&
+  (match value with
+   | .call f a kn kv => !oneToOne targets value || oldLiteral value || nameOk false (.call f a kn kv)
+   | _ => true)
+
+def callLocalOk' (k : Bool) (f : Node) (args : List Node) (kwn : List (Option Str)) (kwv : List Node) : Bool :=
+  let node := Node.call f args kwn kwv
+  nameOk true f && nameOk true node &&
+  (!xattrSpelled (calleeName node) || (!k && xattrOldOk (calleeName node) args)) &&
+  factoryOk args && args.all (oldOk true) && kwv.all (oldOk true) && starsOk k node
+
+/-- `visit_ReturnValue` on a call: skipped for a direct getattr-family call, no class behind a
+literal callee, else the call may be named strictly. -/
+def retCallOk (n : Node) : Bool :=
+  xattrBuiltins.any (fun x => isCallTo x n) || newLiteral n || nameOk false n
+
+mutual
+/-- the node always ends in `error.fatal` (or an exception): what follows it in a statement list is
+never visited. -/
+def stops : Node → Bool
+  | .forbidden _ => true
+  | .other _ kids => stopsL kids
+  | .forLoop _ _ body orelse => stopsL body || stopsL orelse
+  | .withStmt _ body => stopsL body
+  | .funcDef _ _ body => stopsL body
+  | _ => false
+def stopsL : List Node → Bool
+  | [] => false
+  | n :: r => stops n || stopsL r
+end
+
+mutual
+def okN (k : Bool) : Node → Bool
+  | .name _ _ => true
+  | .attr v a c => nameOk true (.attr v a c) && starsOk k (.attr v a c) && (v.isNameable || okN k v)
+  | .sub v sl c => nameOk true (.sub v sl c) && starsOk k (.sub v sl c) && (v.isNameable || okN k v)
+  | .starred v c => nameOk true (.starred v c) && starsOk k (.starred v c) && (v.isNameable || okN k v)
+  | .call f args kwn kwv => callLocalOk' k f args kwn kwv && okL k args && okL k kwv && okKeys kwn kwv
+  | .lam _ body => okN k body
+  | .comp _ elts gens => okL k gens && okL k elts
+  | .gen t iter ifs => unravelOk t && okN k t && okN k iter && okL k ifs
+  | .walrus t v => nameOk false t && (!k || isNameNode t) && assignOk' k [t] v && okN k t && okN k v
+  | .strConst _ => true
+  | .const => true
+  | .seq _ elts _ => okL k elts
+  | .dict keys vals => okL k keys && okL k vals
+  | .assign targets v => !k && assignOk' false targets v && okL false targets && okN false v
+  | .annAssign t ann [] => !k && unravelOk t && okN false t && okN false ann
+  | .annAssign t ann (v0 :: _) => !k && assignOk' false [t] v0 && okN false t && okN false ann && okN false v0
+  | .augAssign t v => !k && assignOk' false [t] v && okN false t && okN false v
+  | .delete targets => !k && targets.all unravelFullOk && okL false targets
+  | .forLoop t iter body orelse =>
+    !k && unravelOk t && okN false t && okN false iter && okB false body && okB false orelse
+  | .withStmt items body => !k && withItemsOk items && okL false items && okB false body
+  | .withitem ce vars => !k && okN false ce && okL false vars
+  | .funcDef _ _ body => !k && okB false body
+  | .classDef _ => !k
+  | .ret [] => !k
+  | .ret (v0 :: _) => !k && okRet' v0 && okN false v0
+  | .forbidden _ => true
+  | .other _ kids => okB k kids
+/-- every node of the list (argument lists, elements, targets). -/
+def okL (k : Bool) : List Node → Bool
+  | [] => true
+  | n :: r => okN k n && okL k r
+/-- a list visited in order (a statement block, the children of a plain node): up to the first node
+that always stops the analysis. -/
+def okB (k : Bool) : List Node → Bool
+  | [] => true
+  | n :: r => okN k n && (stops n || okB k r)
+/-- the `key=` keyword of a call that `sorted`'s analyser may handle: a lambda there has one clean
+positional parameter and a body that is fine in key mode. -/
+def okKeys : List (Option Str) → List Node → Bool
+  | some kw :: rn, v :: rv =>
+    (if kw = "key".toList then
+      (match v with
+       | .lam ps body => ps.args.length == 1 && cleanId ((ps.args.head?).getD []) && okN true body
+       | _ => true)
+     else okKeys rn rv)
+  | none :: rn, _ :: rv => okKeys rn rv
+  | _, _ => true
+def okRet' : Node → Bool
+  | .seq _ elts _ => okRetL' elts
+  | .dict keys vals => okRetL' keys && okRetL' vals
+  | .call f args kwn kwv => retCallOk (.call f args kwn kwv)
+  | _ => true
+def okRetL' : List Node → Bool
+  | [] => true
+  | e :: r => okRet' e && okN false e && okRetL' r
+end
+
 /-- **The shape predicate.** -/
-def NoCrashShapeFn (body : List Node) : Bool := okList body
+def NoCrashShapeFn (body : List Node) : Bool := okB false body
 
 end Rattr.Crash
